@@ -243,8 +243,15 @@ pub fn run_c04(tier: &str) -> i32 {
     let sels: Vec<Vec<&str>> = if thorough { vec![vec!["."], vec!["a.txt", "d.txt"], vec!["d.txt", "c.txt", "b.txt", "a.txt"]] } else { vec![vec!["."], vec!["a.txt", "d.txt"]] };
     for kind in KINDS {
         for (pname, pos) in POS {
-            for mode in [Mode::Build, Mode::InMemoryBuild, Mode::Verify] {
-                for (si, _) in sels.iter().enumerate() {
+            for mode in [Mode::Build, Mode::InMemoryBuild, Mode::Verify, Mode::Clean] {
+                if mode == Mode::Clean && kind != "output-path-is-a-directory" {
+                    continue; // clean ignores directive errors by design; a path it cannot delete is a failure
+                }
+                for (si, sel) in sels.iter().enumerate() {
+                    // clean does not follow dependencies: the faulty file must be named (or found by the scan)
+                    if mode == Mode::Clean && !(sel.contains(&".") || sel.iter().any(|s| s.starts_with(FILES[pos]))) {
+                        continue;
+                    }
                     jobs.push((kind, pname, pos, mode.clone(), si));
                 }
             }
